@@ -175,7 +175,12 @@ def judge_cluster(pid, V, sc, lines, tables, stats, judge_queries):
     crash = [l for l in lines if l["a"] == "ProcessCrash"]
     if crash:
         if not crash[0]["in_database_code"]:
-            raise InfraError("harness crashed in %s: %s\n%s" % (sc["scn"], crash[0]["panic"], crash[0]["stderr_tail"]))
+            # the driver itself went down in this scenario: no verdict for it (the check as a whole
+            # fails as infrastructure only if this happens to more than a tenth of the scenarios)
+            stats["harness_errors"] += 1
+            rp = common.save_replay(pid, sc["scn"] + "-harness-crash", {"scenario": sc, "panic": crash[0]})
+            V.notes.append("%s: the driver crashed (%s at %s; saved %s): not judged" % (sc["scn"], crash[0]["panic"][:120], crash[0]["top_frame"], rp))
+            return
         rp = common.save_replay(pid, sc["scn"], {"scenario": sc, "kind": "process-crash", "panic": crash[0]})
         V.violation(rp, "%s: the database process crashed: panic: %s (at %s)" % (sc["scn"], crash[0]["panic"], crash[0]["top_frame"]))
         return
